@@ -266,7 +266,7 @@ func randomPhase(c *Ctx, mode string) []wstep {
 			case "overflow":
 				steps = append(steps, wstep{Kind: 14, K: 220 + c.Rng.Intn(100)})
 			case "frames":
-				steps = append(steps, wstep{Kind: []int{4, 5, 9, 16, 17}[c.Rng.Intn(5)]})
+				steps = append(steps, wstep{Kind: []int{4, 5, 9, 16, 17, 18}[c.Rng.Intn(6)]})
 			case "closes", "mixed":
 				steps = append(steps, wstep{Kind: 2})
 			default:
@@ -684,6 +684,7 @@ func runFail(c *Ctx, r *failRun, seed int64, level int) {
 				applyStep(srv, wstep{Kind: 9}, new(int))
 				applyStep(srv, wstep{Kind: 16}, new(int))
 				applyStep(srv, wstep{Kind: 17}, new(int))
+				applyStep(srv, wstep{Kind: 18}, new(int))
 			}
 			ct.pert.Barrier()
 		}
@@ -709,8 +710,8 @@ func runFail(c *Ctx, r *failRun, seed int64, level int) {
 }
 
 func runC14(c *Ctx) {
-	kinds := []fakeapi.ListKind{fakeapi.ListErr, fakeapi.ListNonList, fakeapi.ListNoItems, fakeapi.ListNonObjects, fakeapi.ListErrCanceled, fakeapi.ListErrTooMany, fakeapi.ListErrSrvTimeout, fakeapi.ListErrTimeout}
-	kindCode := map[fakeapi.ListKind]int{fakeapi.ListErr: 1, fakeapi.ListNonList: 2, fakeapi.ListNoItems: 3, fakeapi.ListNonObjects: 4, fakeapi.ListErrCanceled: 1, fakeapi.ListErrTooMany: 1, fakeapi.ListErrSrvTimeout: 1, fakeapi.ListErrTimeout: 1}
+	kinds := []fakeapi.ListKind{fakeapi.ListErr, fakeapi.ListNonList, fakeapi.ListNoItems, fakeapi.ListNonObjects, fakeapi.ListErrCanceled, fakeapi.ListErrTooMany, fakeapi.ListErrSrvTimeout, fakeapi.ListErrTimeout, fakeapi.ListErrNotFound, fakeapi.ListErrForbidden, fakeapi.ListErrGone}
+	kindCode := map[fakeapi.ListKind]int{fakeapi.ListErr: 1, fakeapi.ListNonList: 2, fakeapi.ListNoItems: 3, fakeapi.ListNonObjects: 4, fakeapi.ListErrCanceled: 1, fakeapi.ListErrTooMany: 1, fakeapi.ListErrSrvTimeout: 1, fakeapi.ListErrTimeout: 1, fakeapi.ListErrNotFound: 1, fakeapi.ListErrForbidden: 1, fakeapi.ListErrGone: 1}
 	runs := 0
 	emit := func(r *failRun, what string) {
 		runs++
@@ -829,7 +830,7 @@ func runC14(c *Ctx) {
 			}
 		}
 	}
-	c.Rep.Rule = "whole controller (with a tree of a subscription, a clone with a filtered subscription, a for-filter clone and a monitor attached) against the fake API server in virtual time: every list failure kind {List error, context.Canceled as an error, Kubernetes Status errors 429 TooManyRequests / ServerTimeout / 504 Timeout, object that is not a list, list type without items, list of non-objects} injected at the k-th list (k=1..3/4) under {healthy watch, connect errors, stream closes}; and no list failure with every watch failure kind {connect errors, always failing, stream closes, status/bookmark/unknown frames} with triggers {none, Close, context cancel}. Observed: Ready, Done, Error (cause by identity), descendants' Done; compared with the extracted controller model (krun) on the same input sequence. Non-trivial = every scenario (each has a distinct expected outcome); distinct by scenario."
+	c.Rep.Rule = "whole controller (with a tree of a subscription, a clone with a filtered subscription, a for-filter clone and a monitor attached) against the fake API server in virtual time: every list failure kind {List error, context.Canceled as an error, Kubernetes Status errors 429 TooManyRequests / ServerTimeout / 504 Timeout / 404 NotFound / 403 Forbidden / 410 Gone, object that is not a list, list type without items, list of non-objects} injected at the k-th list (k=1..3/4) under {healthy watch, connect errors, stream closes}; and no list failure with every watch failure kind {connect errors, always failing, stream closes, status/bookmark/unknown frames} with triggers {none, Close, context cancel}. Observed: Ready, Done, Error (cause by identity), descendants' Done; compared with the extracted controller model (krun) on the same input sequence. Non-trivial = every scenario (each has a distinct expected outcome); distinct by scenario."
 	c.Rep.Stats["runs"] = runs
 	c.Sample(map[string]interface{}{"scenario": "list error at list 2", "expected": "Done closed, Error cause = injected error, ready stays true, subtree done"})
 }
